@@ -468,6 +468,19 @@ pub fn heads_consistent(store: &mut Store, ns: NamespaceId, d: &[SignedEntry]) -
     }
     let got: BTreeMap<[u8; 32], u64> = h.iter().map(|(a, (t, _))| (*a, *t)).collect();
     if got != want {
+        if want.len() > 8 {
+            // many authors: only the differences
+            let diff: Vec<String> = want
+                .keys()
+                .chain(got.keys())
+                .collect::<std::collections::BTreeSet<_>>()
+                .into_iter()
+                .filter(|a| got.get(*a) != want.get(*a))
+                .take(8)
+                .map(|a| format!("author {}: head {:?}, newest entry held {:?}", hex::encode(&a[..3]), got.get(a), want.get(a)))
+                .collect();
+            return Err(format!("heads differ from the per-author maxima of the {} entries held ({} authors): {}", d.len(), want.len(), diff.join("; ")));
+        }
         return Err(format!(
             "heads {:?} != per-author maxima {:?} of {}",
             got.iter().map(|(a, t)| (hex::encode(&a[..3]), *t)).collect::<Vec<_>>(),
